@@ -172,3 +172,25 @@ def in_requested_order(x, y, orders):
 def expired(record):
     """the record's validity period (seconds) after its ITS time stamp (ms) lies before the current LDM time"""
     return record['timeValidity'] * 1000 + record['timestamp'] < its_now()
+
+
+# ---- C12: removal from the in-memory store (bounded stores with concrete identifiers) ----
+
+def old_keys(db):
+    return old(sorted(db.database.keys()))
+
+
+def first_equal_key(db, record):
+    """identifier of the first stored record (in identifier = insertion order) equal to `record`, at entry"""
+    for k in (0, 1, 2, 3, 5):
+        if old(k in db.database) and old(db.database[k] == record):
+            return k
+    return None
+
+
+def removed_keys(db):
+    return [k for k in (0, 1, 2, 3, 5) if old(k in db.database) and k not in db.database]
+
+
+def old_value(db, k):
+    return old(db.database[k])
